@@ -118,6 +118,7 @@ def history(rng, force=None, nconn=None, teardown=None, length=None, avoid_overl
     nconn = nconn or rng.choice([1, 1, 2, 3])
     pool = request_pool(rng, o["policy"])
     conns = []          # indices accepted
+    late_hs = []        # connections whose (TLS) handshake completion is delivered at the end of the script
     nacc = 0
     pending_w = {}
     total = length or rng.range(6, 40)
@@ -143,7 +144,12 @@ def history(rng, force=None, nconn=None, teardown=None, length=None, avoid_overl
             conns.append(len(conns))
             pending_w[conns[-1]] = 0
             if ssl:
-                lines.append("hs c%d %s" % (conns[-1], "fail" if rng.chance(1, 10) else "ok"))
+                if rng.chance(1, 7):
+                    # the handshake stays pending: whatever happens next (requests to other connections, teardown) happens
+                    # with this connection half-established; its completion may arrive much later (or after the teardown)
+                    late_hs.append(conns[-1])
+                else:
+                    lines.append("hs c%d %s" % (conns[-1], "fail" if rng.chance(1, 10) else "ok"))
             continue
         if not conns:
             continue
@@ -221,6 +227,10 @@ def history(rng, force=None, nconn=None, teardown=None, length=None, avoid_overl
                 lines.append(rng.choice(["wdone c%d", "shutdone c%d ok", "late c%d read", "late c%d write", "rderr c%d opabort", "werr c%d opabort"]) % c)
         lines.append("poll")
     lines.append("state")
+    for c in late_hs:
+        lines.append("hs c%d %s" % (c, rng.choice(["ok", "ok", "fail"])))
+    if late_hs:
+        lines.append("state")
     return lines, o
 
 
